@@ -113,9 +113,13 @@ def make_filter(s, tok):
 
 # ---- concretisation and the real stack --------------------------------------------------------
 
-def concretize_scenario(s, m):
-    """Scenario with symbolic parts -> plain JSON-able dict with strings for cells."""
+def concretize_scenario(s, m, extra=None):
+    """Scenario with symbolic parts -> plain JSON-able dict with strings for cells.  `extra`
+    (e.g. the output rows of the symbolic run) is rendered with the same word map and returned
+    under the key '_extra'."""
     out = {}
+    if extra is not None:
+        out['_extra'] = model_value(m, extra)
     for k, v in s.items():
         if k in ('L', 'R'):
             out[k] = {'columns': list(v['columns']), 'index': list(v['index']),
